@@ -2,7 +2,7 @@
   C13 — variant haplotypes: alternative sequence and lift-over match the edit model.
 
   Property theorems only (helper lemmas: Proofs/VarKernel.lean, VarAlt.lean, VarLift.lean, VarOpt.lean, VarFull.lean,
-  VarInc.lean, VarColl.lean, VarVcf.lean).
+  VarInc.lean, VarColl.lean, VarCollFull.lean, VarVcf.lean).
     Spec.Variants   position-wise semantics of edits: `piece`, `image ref es lo hi` (edited image of a reference
                     range), `altOf` (literal substitution of every edit), `newPos`/`imageBlock` (where a position /
                     a block sits on the haplotype), verdict functions `okAltSeq`, `okLift`, `okIncorporate`, `okVcf`
@@ -16,6 +16,7 @@ import BioCantor.Proofs.VarLift
 import BioCantor.Proofs.VarFull
 import BioCantor.Proofs.VarInc
 import BioCantor.Proofs.VarColl
+import BioCantor.Proofs.VarCollFull
 import BioCantor.Proofs.VarVcf
 namespace BioCantor.Props.C13
 open BioCantor BioCantor.GenP BioCantor.Spec.Variants BioCantor.Proofs.Var
@@ -256,6 +257,37 @@ theorem collection_block_reads_edit (ref : Seq) (vs : List Var) (b : Blk) (hne :
     slice (altSeqN 0 ref vs) (imageBlock ref (vs.map (toEdit 0)) b) = image ref (vs.map (toEdit 0)) b.1 b.2 :=
   collection_block_reads ref vs b hne hb hbn hch
 
+/-- T5 (positive part in full, `_partial` only w.r.t. "all collections", which F-C13a refutes): ANY number of blocks,
+    whole chromosome or chunk.  `CollOk off n pre v b`: block `b` lies in the window, has bases, every variant of the
+    collection is wholly inside it or wholly outside it, and every variant before the right-most one is transparent
+    for it.  Then `VariantIntervalCollection.lift_over_location` AS IT IS returns a location (or the EmptyLocation) whose
+    blocks are — for every additive reading: positions, slices — the images of the original blocks under ALL edits. -/
+theorem collection_transparent_any_blocks_partial (par : Par) (ref : Seq) (pre : List Var) (v : Var) (st : Strand)
+    (bs : List Blk)
+    (hch : Chain ref.length ((pre ++ [v]).map (toEdit par.off)))
+    (hlo : ∀ u ∈ pre ++ [v], par.off ≤ u.s)
+    (hasc : Asc bs) (hne : bs ≠ [])
+    (hbs : ∀ b ∈ bs, CollOk par.off ref.length pre v b) :
+    ∃ r, liftN .current par ref (pre ++ [v]) (Model.toSingleIfOne ⟨bs, st⟩) = .ok r
+      ∧ (r = .empty ∨ (Model.locStrand r = .ok st ∧ Asc (Model.locBlocks r) ∧ Model.locBlocks r ≠ []
+            ∧ ∀ y ∈ Model.locBlocks r, y.2 ≤ (altSeqN par.off ref (pre ++ [v])).length))
+      ∧ ∀ {α : Type} (g : Blk → List α), Additive g →
+          (Model.locBlocks r).flatMap g
+            = bs.flatMap (fun b => g (imgRelE par.off ref ((pre ++ [v]).map (toEdit par.off)) b)) :=
+  liftN_transparent_blocks par ref pre v st bs hch hlo hasc hne hbs
+
+/-- … and reads there the edited image, under all edits, of the location's reference bases -/
+theorem collection_transparent_reads_partial (par : Par) (ref : Seq) (pre : List Var) (v : Var) (st : Strand)
+    (bs : List Blk)
+    (hch : Chain ref.length ((pre ++ [v]).map (toEdit par.off)))
+    (hlo : ∀ u ∈ pre ++ [v], par.off ≤ u.s)
+    (hasc : Asc bs) (hne : bs ≠ [])
+    (hbs : ∀ b ∈ bs, CollOk par.off ref.length pre v b) :
+    ∃ r, liftN .current par ref (pre ++ [v]) (Model.toSingleIfOne ⟨bs, st⟩) = .ok r
+      ∧ (Model.locBlocks r).flatMap (slice (altSeqN par.off ref (pre ++ [v])))
+          = bs.flatMap (fun b => image ref ((pre ++ [v]).map (toEdit par.off)) (b.1 - par.off) (b.2 - par.off)) :=
+  liftN_transparent_reads par ref pre v st bs hch hlo hasc hne hbs
+
 def refW : Seq := "GCTTCCAAGGTTACGTACGTTTGACC".toList
 def v1 : Var := ⟨2, 6, ['C', 'A']⟩
 def v2 : Var := ⟨13, 15, ['A', 'G', 'G']⟩
@@ -349,6 +381,15 @@ example : ∃ r, lift1 .current (.chunk 100) refW ⟨102, 106, ['C', 'A']⟩
   · exact hne
 example : Transparent ⟨13, 15, ['A', 'G']⟩ (3, 20) ∧ Transparent ⟨22, 24, []⟩ (3, 20) ∧ Clean ⟨13, 15, ['A', 'G']⟩ (3, 20) := by
   unfold Transparent; decide
+example : CollOk 100 refW.length [⟨104, 105, ['T']⟩, ⟨122, 124, []⟩] ⟨125, 126, ['G', 'G']⟩ (101, 108)
+    ∧ CollOk 100 refW.length [⟨104, 105, ['T']⟩] ⟨125, 126, ['G', 'G']⟩ (110, 112) := by
+  refine ⟨⟨by decide, by decide, by decide, by decide, ?_⟩, ⟨by decide, by decide, by decide, by decide, ?_⟩⟩
+  · intro u hu
+    simp only [List.mem_cons, List.mem_nil_iff, or_false] at hu
+    rcases hu with rfl | rfl <;> (unfold Transparent; decide)
+  · intro u hu
+    simp only [List.mem_cons, List.mem_nil_iff, or_false] at hu
+    subst hu; unfold Transparent; decide
 example : ∀ r ∈ ([⟨['c'], 5, 6, .val 7, [(['A'], ['S'])]⟩, ⟨['c'], 9, 9, .missing, [([], ['D']), (['T'], ['D'])]⟩] :
     List Model.Variants.VcfRec), ∀ n, r.ps = .val n → 0 ≤ n := by
   intro r hr n hn
